@@ -29,7 +29,7 @@ ASSUMPTIONS = [
 REQUIRED_COUNTERS = ('subclass_instances_sent', 'responses_decoded', 'requests_delivered', 'xsi_types_resolved')
 SHARD_TIMEOUT = {'quick': 900, 'thorough': 3000}
 XML_KINDS = ('xml', 'soap11', 'soap12')
-DICT_KINDS = ('json', 'yaml', 'msgpack')
+DICT_KINDS = ('json', 'yaml', 'msgpack', 'msgpack-bkeys')      # -bkeys: map keys (and so the type marker) as msgpack bin, what spyne itself writes
 
 
 def shards(tier, seed):
@@ -95,7 +95,7 @@ def make_protocols(kind, poly):
     from spyne.protocol.json import JsonDocument
     from spyne.protocol.yaml import YamlDocument
     from spyne.protocol.msgpack import MessagePackDocument
-    c = {'json': JsonDocument, 'yaml': YamlDocument, 'msgpack': MessagePackDocument}[kind]
+    c = {'json': JsonDocument, 'yaml': YamlDocument, 'msgpack': MessagePackDocument, 'msgpack-bkeys': MessagePackDocument}[kind]
     return c(polymorphic=poly, ignore_wrappers=False), c(polymorphic=poly, ignore_wrappers=False)
 
 
@@ -180,7 +180,7 @@ def run_universe(R, seed, uid, tier, grow=False):
     rng = core.rng_for(seed, PROP, 'vals%d%s' % (uid, 'g' if grow else ''))
     kinds = list(XML_KINDS + DICT_KINDS)
     if tier == 'quick':
-        kinds = [rng.choice(XML_KINDS), rng.choice(XML_KINDS), rng.choice(DICT_KINDS)]
+        kinds = [rng.choice(XML_KINDS), rng.choice(XML_KINDS), rng.choice(DICT_KINDS), 'msgpack-bkeys']
     st = staged(ir) if grow else None
     if grow and st is None:
         return
@@ -209,7 +209,7 @@ def run_universe(R, seed, uid, tier, grow=False):
                     w.build_interface_document('http://localhost/')
                     W = refxml.Wire(B, w.get_interface_document(), rng)
                 else:
-                    codec = refdict.Codec(ir, refdict.Conf(kind, False, 'dict', False))
+                    codec = refdict.Codec(ir, refdict.Conf(kind.replace('-bkeys', ''), False, 'dict', kind.endswith('-bkeys')))
                 server = ServerBase(app)
             except Exception as e:
                 R.skip('universe rejected at construction: %s' % type(e).__name__)
@@ -315,7 +315,7 @@ def exercise_early(R, B, early, kind, rng):
         w.build_interface_document('http://localhost/')
         W = refxml.Wire(B, w.get_interface_document(), rng)
     else:
-        codec = refdict.Codec(early, refdict.Conf(kind, False, 'dict', False))
+        codec = refdict.Codec(early, refdict.Conf(kind.replace('-bkeys', ''), False, 'dict', kind.endswith('-bkeys')))
     server = ServerBase(app)
     for md in early['services'][0]['methods']:
         (an, at), = md['args']
